@@ -81,6 +81,7 @@ def run(ctx):
     r.rule("C12.validate", "unknown / deprecated rule names raise ConfigurationError before any rule is configured")
     r.rule("C12.typestate", "configuration objects have dConfig and severity_list before they escape")
     r.rule("C12.siblings", "the three configure_* readers agree")
+    r.rule("C12.filelevel", "a position found in the flattened list of file names indexes the configuration list it was flattened from: the flattening keeps one name per entry, in order")
     r.rule("C12.effective", "rules act on the configured attribute (no overwrite outside constructors, no stale copies)")
     r.explanation = (
         "Ordering facts by structured-flow dominance in Rule.configure, apply_rules.configure_rules, config.read_configuration_files and "
@@ -224,6 +225,8 @@ def run(ctx):
         r.fail("C12.validate", rc.key + ":deprecated-raises", "configuring a deprecated rule no longer raises ConfigurationError", rc.loc())
     va = p.function("vsg.rule_list:rule_list._validate_configuration_rule_exists")
     _validate_exists(r, p, va)
+    _file_level_index(r, p)
+    _single_key_entries(r, p)
     # deprecated branch of Rule.configure
     dep = [n for n in walk_function(conf.node) if isinstance(n, ast.If) and "self.deprecated" in norm(n.test)]
     if dep and dep[0].body and isinstance(dep[0].body[0], ast.Return) and "print_output" in norm(dep[0].body[0].value) and "self.unique_id in" in norm(dep[0].test):
@@ -236,6 +239,104 @@ def run(ctx):
     _siblings(r, p)
     _effective(r, p, rt)
     return r
+
+
+def _file_level_index(r, p):
+    """apply_rules finds a file's per-file configuration by position: it flattens configuration[section] into a list of
+    names, takes names.index(file) and reads configuration[section][that index].  That is only right when the
+    flattening is position preserving - exactly one name appended per entry, on every path, in order."""
+    mod = "vsg.apply_rules"
+    flat = {}
+    for fi in p.functions.values():
+        if fi.module.name != mod:
+            continue
+        single = {}
+        for n in walk_function(fi.node):
+            if isinstance(n, ast.Assign) and len(n.targets) == 1 and isinstance(n.targets[0], ast.Name) and isinstance(n.value, ast.Call):
+                single.setdefault(n.targets[0].id, []).append(n.value)
+        for n in walk_function(fi.node):
+            if isinstance(n, ast.Call) and isinstance(n.func, ast.Attribute) and n.func.attr == "index" and isinstance(n.func.value, ast.Name):
+                src = single.get(n.func.value.id, [])
+                if len(src) == 1 and src[0].args and isinstance(src[0].args[0], ast.Subscript):
+                    ent = p.resolve_expr(fi.module, src[0].func)
+                    if ent and ent[0] == "func":
+                        flat[ent[1].key] = (ent[1], fi, n)
+    if not flat:
+        raise AnalysisError("no position look-up in a flattened file list found in vsg.apply_rules")
+    for key, (f, user, site) in sorted(flat.items()):
+        problems = []
+        body = [st for st in f.node.body if not (isinstance(st, ast.Expr) and isinstance(st.value, ast.Constant))]
+        loops = [st for st in body if isinstance(st, ast.For)]
+        rets = [st for st in body if isinstance(st, ast.Return)]
+        out = norm(rets[0].value) if len(rets) == 1 and isinstance(rets[0].value, ast.Name) else None
+        if len(loops) != 1 or out is None or norm(loops[0].iter) not in f.params:
+            problems.append("is not one loop over its parameter that builds and returns one list")
+        else:
+            def count(stmts):
+                """set of numbers of elements added to the result on the paths through stmts (None: cannot tell)"""
+                acc = {0}
+                for st in stmts:
+                    if isinstance(st, ast.If):
+                        a, b = count(st.body), count(st.orelse)
+                        if a is None or b is None or any(norm(x) == out or (isinstance(x, ast.Name) and x.id == out) for x in ast.walk(st.test)):
+                            return None
+                        step = a | b
+                    elif isinstance(st, ast.Expr) and isinstance(st.value, ast.Call) and norm(st.value.func) in (out + ".append", out + ".extend"):
+                        step = {1}
+                    elif isinstance(st, (ast.Assign, ast.Expr)) and not any(isinstance(x, ast.Name) and x.id == out for x in ast.walk(st)):
+                        step = {0}
+                    else:
+                        return None
+                    acc = {x + y for x in acc for y in step}
+                return acc
+            c = count(loops[0].body)
+            if c != {1}:
+                problems.append("does not add exactly one name per entry on every path (a skipped, filtered or de-duplicated entry shifts every later position)")
+            pre = [st for st in body if st is not loops[0] and st is not rets[0]]
+            if not (len(pre) == 1 and isinstance(pre[0], ast.Assign) and norm(pre[0].targets[0]) == out and isinstance(pre[0].value, ast.List) and not pre[0].value.elts):
+                problems.append("result does not start as the empty list")
+            if body and body[-1] is not rets[0]:
+                problems.append("result is changed after the loop")
+        kk = "%s:position-preserving" % f.key
+        if problems:
+            r.fail("C12.filelevel", kk, "%s (whose result is searched with .index() in %s to index the configuration list) %s: the per-file configuration of a later entry is looked up at the wrong position and silently ignored" % (f.name, user.name, "; ".join(problems)), f.loc())
+        else:
+            r.ok("C12.filelevel", kk, "one name appended per entry of the configuration list, in order, on every path (dict entries contribute their keys: one key per entry as written by the configuration reader)")
+
+
+def _single_key_entries(r, p):
+    """the flattening contributes one name per entry only if a dict entry has one key: the configuration reader builds
+    every file_list dict entry afresh with exactly one key (file_rules entries are the user's own and are not decided)"""
+    f = p.function("vsg.config:process_file_list_key")
+    apps = [n for n in walk_function(f.node) if isinstance(n, ast.Call) and isinstance(n.func, ast.Attribute) and n.func.attr == "append" and "file_list" in norm(n.func.value)]
+    if not apps:
+        raise AnalysisError("process_file_list_key no longer appends to the file_list")
+    bad = []
+    n_dict = 0
+    for a in apps:
+        if not (a.args and isinstance(a.args[0], ast.Name)):
+            bad.append("appends `%s`" % norm(a.args[0])[:40] if a.args else "append()")
+            continue
+        v = a.args[0].id
+        fresh = [n for n in walk_function(f.node) if isinstance(n, ast.Assign) and len(n.targets) == 1 and norm(n.targets[0]) == v]
+        if not fresh:
+            continue  # a loop variable holding a plain name
+        n_dict += 1
+        keys = {norm(n.targets[0].slice) for n in walk_function(f.node) if isinstance(n, ast.Assign) and isinstance(n.targets[0], ast.Subscript) and norm(n.targets[0].value) == v}
+        encl = None
+        for lp in walk_function(f.node):
+            if isinstance(lp, ast.For) and any(y is a for y in ast.walk(lp)) and (encl is None or any(y is lp for y in ast.walk(encl))):
+                encl = lp
+        in_loop = encl is not None and all(any(y is x for y in ast.walk(encl)) for x in fresh)
+        if not in_loop:
+            bad.append("dict entry `%s` is not created inside the loop that appends it (entries share one dictionary)" % v)
+        elif not all(isinstance(x.value, ast.Dict) and not x.value.keys for x in fresh) or len(keys) != 1:
+            bad.append("dict entry `%s` is not built afresh with exactly one key (keys stored: %s)" % (v, sorted(keys)))
+    kk = f.key + ":single-key-entries"
+    if bad or not n_dict:
+        r.fail("C12.filelevel", kk, "file_list entries written by the configuration reader: %s - positions in the flattened name list no longer match positions in file_list" % ("; ".join(bad) or "no dict entry found"), f.loc())
+    else:
+        r.ok("C12.filelevel", kk, "every dict entry appended to file_list is a fresh dict with exactly one key (%d append sites)" % len(apps))
 
 
 def _validate_exists(r, p, va):
@@ -587,6 +688,14 @@ def _normalised_use(r, p):
 
 _R = "vsg/rule.py"
 VARIANTS = [
+    Variant("C12", "flattened file-name list drops names it already holds", "fire",
+            [("vsg/utils.py", "        else:\n            lReturn.append(dFile)\n\n    return lReturn", "        elif dFile not in lReturn:\n            lReturn.append(dFile)\n\n    return lReturn")],
+            rule="C12.filelevel", key="position-preserving"),
+    Variant("C12", "twin: flattened file-name list built with a local for the entry's names", "silent",
+            [("vsg/utils.py", "        if isinstance(dFile, dict):\n            lReturn.extend(extract_keys_from_dict(dFile))\n        else:\n            lReturn.append(dFile)\n\n    return lReturn", "        if isinstance(dFile, dict):\n            lKeys = extract_keys_from_dict(dFile)\n            lReturn.extend(lKeys)\n        else:\n            lReturn.append(dFile)\n\n    return lReturn")]),
+    Variant("C12", "globbed file_list entries share one dictionary", "fire",
+            [("vsg/config.py", "            for sGlobbedFilename in glob_filenames(sKey):\n                dTemp = {}\n", "            dTemp = {}\n            for sGlobbedFilename in glob_filenames(sKey):\n")],
+            rule="C12.filelevel", key="single-key-entries"),
     Variant("C12", "configured phase stored only when it is one of the first six phases", "fire",
             [("vsg/rule.py", "            if sAttributeName == \"severity\":\n                self.severity = oConfig.severity_list.get_severity_named(oConfig.dConfig[\"rule\"][self.get_unique_id()][\"severity\"])\n", "            if sAttributeName == \"severity\":\n                self.severity = oConfig.severity_list.get_severity_named(oConfig.dConfig[\"rule\"][self.get_unique_id()][\"severity\"])\n            elif sAttributeName == \"phase\":\n                set_phase(self, oConfig.dConfig[\"rule\"][self.get_unique_id()][\"phase\"])\n"),
              ("vsg/rule.py", "def get_rule_identifier(self):", "def set_phase(self, iPhase):\n    if iPhase in range(1, 7):\n        self.phase = iPhase\n\n\ndef get_rule_identifier(self):")], rule="C12.siblings", key="stores-value"),
